@@ -97,7 +97,7 @@ func evClass(model map[string]*mval, pre *sim.View, cp sim.CurParams, ev sim.Evi
 	if !pre.PubRel[ev.Addr] {
 		return "unknown"
 	}
-	if now.Sub(time.Unix(ev.Time, 0)) > cp.MaxEvAge {
+	if now.Sub(ev.At()) > cp.MaxEvAge {
 		return "old"
 	}
 	v, ok := model[ev.Addr]
@@ -201,7 +201,7 @@ func (C07) OnCall(e *sim.Env, c *sim.Call) {
 			detail := ""
 			for _, ev := range c.Entry.Begin.Evidence {
 				if v, ok := pre.Vals[ev.Addr]; ok {
-					detail += fmt.Sprintf(" [offender %.8s status %s jailed %v stake %v, evidence power %d age %v, max age %v, fraction %v, min %d]", ev.Addr, statusName[v.Status], v.Jailed, v.Tokens, ev.Power, c.Time.Sub(time.Unix(ev.Time, 0)), cp.MaxEvAge, cp.FracDS, cp.Min)
+					detail += fmt.Sprintf(" [offender %.8s status %s jailed %v stake %v, evidence power %d age %v, max age %v, fraction %v, min %d]", ev.Addr, statusName[v.Status], v.Jailed, v.Tokens, ev.Power, c.Time.Sub(ev.At()), cp.MaxEvAge, cp.FracDS, cp.Min)
 				}
 			}
 			e.Violate("C07", "valid-double-sign-kills-node/"+cls, fmt.Sprintf("BeginBlock@%d with valid in-window double-sign evidence panicked (%s): the promised burn never commits%s", c.H, firstLine(c.Panic), detail), c)
@@ -283,7 +283,7 @@ func (C07) OnCall(e *sim.Env, c *sim.Call) {
 	for _, ev := range c.Entry.Begin.Evidence {
 		k := evClass(model, pre, cp, ev, c.Time)
 		e.Count("c07.evidence." + k)
-		if c.Time.Sub(time.Unix(ev.Time, 0)) == cp.MaxEvAge {
+		if c.Time.Sub(ev.At()) == cp.MaxEvAge {
 			e.Count("c07.evidence_exactly_at_max_age")
 		}
 		if k != "valid" {
